@@ -203,8 +203,18 @@ def deep_case(rng):
     cmd = "%s X%s Y%s I%s J%s" % ("G2" if clockwise else "G3", repr(round(ex, 4)),
                                   repr(round(ey, 4)), repr(round(cx - sx, 4)),
                                   repr(round(cy - sy, 4)))
-    return {"region": region, "sx": round(sx, 4), "sy": round(sy, 4), "cmd": cmd,
-            "units": rng.choice(["mm", "mm", "mm", "inch", "stale"])}
+    case = {"region": region, "sx": round(sx, 4), "sy": round(sy, 4), "cmd": cmd,
+            "units": rng.choice(["mm", "mm", "mm", "inch", "stale", "m206"])}
+    if case["units"] == "m206":
+        # home offsets (different for X and Y): the file's coordinates are shifted, the arc's
+        # physical path is the same
+        hx, hy = rng.choice([(12.0, 0.0), (-4.0, 8.0), (0.0, -7.5), (3.0, 3.0)])
+        case["home"] = [hx, hy]
+        case["sx"], case["sy"] = round(sx - hx, 4), round(sy - hy, 4)
+        case["cmd"] = "%s X%s Y%s I%s J%s" % (
+            "G2" if clockwise else "G3", repr(round(ex - hx, 4)), repr(round(ey - hy, 4)),
+            repr(round(cx - sx, 4)), repr(round(cy - sy, 4)))
+    return case
 
 
 def observe_deep(case):
@@ -227,6 +237,8 @@ def observe_deep(case):
             rig.gcode("G1 X0.1 Y0.1")
             rig.state.resetState()
             rig.gcode("G28")
+        elif units == "m206":
+            rig.gcode("M206 X%s Y%s" % (repr(case["home"][0]), repr(case["home"][1])))
         rig.gcode("G1 X%s Y%s" % (repr(case["sx"]), repr(case["sy"])))
         result = rig.gcode(case["cmd"])
         event["res"] = result["res"]
